@@ -3,3 +3,5 @@ import Props.C12
 #print axioms C12.match_sound'
 #print axioms C12.match_functional
 #print axioms C12.match_self
+#print axioms C12.sequence_windows_exact
+#print axioms C12.sequence_windows_count
